@@ -1089,6 +1089,15 @@ func vfBoundaryConfigs() []vfGConfig {
 			add(func(i *vfGIface) { i.maxInterval = mx.String(); i.defaultLifetime = vfSp(s) })
 		}
 	}
+	// every key that switches a mode × the boundary values of the lifetime whose rule the mode might
+	// be thought to relax (a unicast-only interface sends no periodic RAs, yet its default lifetime
+	// obeys the same rule; likewise with the managed / other flags set)
+	for _, s := range []string{"-1s", "-500ms", "-30m", "-9000s", "1s", "3s", "599s", "600s", "9000s", "9001s", "0s"} {
+		s := s
+		add(func(i *vfGIface) { i.unicastOnly = true; i.defaultLifetime = vfSp(s) })
+		add(func(i *vfGIface) { i.managed, i.otherConfig = true, true; i.defaultLifetime = vfSp(s) })
+		add(func(i *vfGIface) { i.unicastOnly = true; i.maxInterval = "4s"; i.defaultLifetime = vfSp(s) })
+	}
 	for _, s := range append(around(0), around(time.Hour)...) {
 		s := s
 		add(func(i *vfGIface) { i.reachable = s })
@@ -1517,6 +1526,40 @@ func verifRA(t *testing.T, r *vfh.Rand, out *vfh.Out, op string) {
 			syss = append(syss, s)
 		}
 		vfRaGroupCase(t, out, op, gi, names, syss, r.Chance(2, 3))
+	}
+	// the single-key boundary documents of C02 (every bound of every key, one beyond each, the
+	// mode-switching keys crossed with the lifetimes), built and — for C03 — encoded like the
+	// generated ones: what the parser lets through at a boundary is what reaches the wire
+	for _, bc := range vfBoundaryConfigs() {
+		// (documents that exercise the interface's naming — `names` groups, empty or repeated names —
+		// are C02's alone: the per-interface RA model has no names)
+		if len(bc.ifaces) != 1 || bc.ifaces[0].name == "" || bc.ifaces[0].names != nil {
+			continue
+		}
+		gi := bc.ifaces[0]
+		gi.monitor, gi.advertise = false, true
+		epoch := time.Unix(1700000000, 0)
+		cfg, err, pan := vfSafeParse(vfGConfig{ifaces: []vfGIface{gi}}.toml(), epoch)
+		e := &vfEnc{t: new(vfh.Toks)}
+		e.t.S(op)
+		e.iface(gi)
+		sys := vfGenSys(r, epoch)
+		sys.toks(e.t)
+		e.t.B(true)
+		impl := new(vfh.Toks)
+		switch {
+		case pan != nil:
+			impl.S("panic")
+		case err != nil:
+			impl.S("rej")
+		case len(cfg.Interfaces) != 1:
+			continue
+		default:
+			ifi := cfg.Interfaces[0]
+			sys.inject(ifi)
+			vfRaImpl(t, e, impl, ifi, true, op)
+		}
+		out.Line(e.t.String(), impl.String())
 	}
 	n := vfh.N(6000, 150000)
 	for k := 0; k < n; k++ {
